@@ -17,6 +17,7 @@ from . import runner, symx
 PROPS = {
     "C01": "vp.harness.c01_bls",
     "C02": "vp.harness.c02_layout",
+    "C04": "vp.harness.c04_expr",
     "C11": "vp.harness.c11_xdef",
     "C12": "vp.harness.c12_const",
 }
